@@ -1,4 +1,5 @@
 import PvModel.Props.C06
+import PvModel.Props.C07Rel
 #print axioms Pv.C06_step_perm
 #print axioms Pv.C06_finite
 #print axioms Pv.C06_ref
@@ -6,3 +7,4 @@ import PvModel.Props.C06
 #print axioms Pv.C06_no_invention
 #print axioms Pv.C06_prefix_sound
 #print axioms Pv.C06_step_mem
+#print axioms Pv.C06_rel_no_invention
